@@ -72,6 +72,23 @@ type oframe struct {
 	orig map[ssa.Value]ssa.Value
 	// args: what each parameter stands for in the calling frame
 	args map[ssa.Value]boundVal
+	// parent / callBlock: the frame this one was entered from, and the block of the call
+	parent    *oframe
+	callBlock *ssa.BasicBlock
+}
+
+// usePoint: the block of frame target through which control reaches the current point of frame fr (target is fr
+// itself or one of its callers); def is used when target is not on the chain.
+func (fr *oframe) usePoint(target *oframe, here, def *ssa.BasicBlock) *ssa.BasicBlock {
+	if target == fr {
+		return here
+	}
+	for f := fr; f != nil; f = f.parent {
+		if f.parent == target && f.callBlock != nil {
+			return f.callBlock
+		}
+	}
+	return def
 }
 
 type boundVal struct {
@@ -476,7 +493,7 @@ func (oe *outEval) strLx(v ssa.Value, b *ssa.BasicBlock, fr *oframe) *lx {
 		}
 	case *ssa.Field:
 		if val, blk, vfr, ok := oe.fieldValue(x.X, x.Field, fr, 0); ok {
-			return oe.strLx(val, blk, vfr)
+			return oe.strLx(val, fr.usePoint(vfr, b, blk), vfr)
 		}
 	case *ssa.Convert:
 		if isStringish(x.X.Type()) || isByteSlice(x.X.Type()) {
@@ -507,7 +524,7 @@ func (oe *outEval) strLx(v ssa.Value, b *ssa.BasicBlock, fr *oframe) *lx {
 		// a field of a local struct, or of a struct handed in by a caller
 		if fa, ok := x.X.(*ssa.FieldAddr); ok && x.Op == token.MUL {
 			if val, blk, vfr, ok := oe.fieldValue(fa.X, fa.Field, fr, 0); ok {
-				return oe.strLx(val, blk, vfr)
+				return oe.strLx(val, fr.usePoint(vfr, b, blk), vfr)
 			}
 		}
 	}
@@ -531,7 +548,14 @@ func (oe *outEval) seedFieldTerms(fr *oframe, callBlock *ssa.BasicBlock, caller 
 				continue
 			}
 			val, _, vfr, ok := oe.fieldValue(base, field, fr, 0)
-			if !ok || vfr == fr {
+			if !ok {
+				continue
+			}
+			if vfr == fr {
+				// a field of a local struct of this very function, written once
+				if t, ok := oe.s.termOf(val, fr.env); ok {
+					fr.env[v] = t
+				}
 				continue
 			}
 			if t, ok := oe.s.termOf(val, vfr.env); ok {
@@ -704,7 +728,7 @@ func (oe *outEval) inlineLx(f *ssa.Function, args []ssa.Value, idx int, b *ssa.B
 	if fr.depth >= 5 || oe.active[f] > 0 {
 		return lxAny()
 	}
-	fr2 := &oframe{fn: f, env: termEnv{}, bind: map[ssa.Value]*lx{}, depth: fr.depth + 1, orig: map[ssa.Value]ssa.Value{}, args: map[ssa.Value]boundVal{}}
+	fr2 := &oframe{fn: f, env: termEnv{}, bind: map[ssa.Value]*lx{}, depth: fr.depth + 1, orig: map[ssa.Value]ssa.Value{}, args: map[ssa.Value]boundVal{}, parent: fr, callBlock: b}
 	for i, prm := range f.Params {
 		if i >= len(args) {
 			continue
@@ -1857,4 +1881,16 @@ func (oe *outEval) boundTerm(t Term, f *Form, fr *oframe) *lx {
 		}
 	}
 	return &lx{Kind: "term", Term: t, Form: f}
+}
+
+// topFrame: the frame of the function under analysis, its string parameters being the terms.
+func (oe *outEval) topFrame(fn *ssa.Function) *oframe {
+	fr := &oframe{fn: fn, env: termEnv{}, bind: map[ssa.Value]*lx{}, args: map[ssa.Value]boundVal{}}
+	for i, prm := range fn.Params {
+		if isStringish(prm.Type()) {
+			fr.env[prm] = Term{Param: i}
+		}
+	}
+	oe.seedFieldTerms(fr, nil, nil)
+	return fr
 }
